@@ -530,6 +530,13 @@ def _instantiated_parameter(parameterized, param):
     return param
 
 
+def _clear_params_cache(cls):
+    """Drop the cached Parameters of a class and of all its subclasses."""
+    cls._param__private.params.clear()
+    for subclass in cls.__subclasses__():
+        _clear_params_cache(subclass)
+
+
 def instance_descriptor(f):
     # If parameter has an instance Parameter, delegate setting
     def _f(self, obj, val):
@@ -2456,8 +2463,8 @@ class Parameters:
         cls = self_.cls
         type.__setattr__(cls, param_name, param_obj)
         ParameterizedMetaclass._initialize_parameter(cls, param_name, param_obj)
-        # delete cached params()
-        cls._param__private.params.clear()
+        # delete cached params(), also of the subclasses that inherit it
+        _clear_params_cache(cls)
 
     # PARAM3_DEPRECATION
     @_deprecated(extra_msg="Use instead `.param.add_parameter`", warning_cat=_ParamFutureWarning)
@@ -4465,6 +4472,7 @@ class ParameterizedMetaclass(type):
                 parameter = copy.copy(parameter)
                 parameter.owner = mcs
                 type.__setattr__(mcs,attribute_name,parameter)
+                _clear_params_cache(mcs)
             mcs.__dict__[attribute_name].__set__(None,value)
 
         else:
@@ -4472,6 +4480,7 @@ class ParameterizedMetaclass(type):
 
             if isinstance(value,Parameter):
                 mcs.__param_inheritance(attribute_name,value)
+                _clear_params_cache(mcs)
 
     def __param_inheritance(mcs, param_name, param):
         """
